@@ -1,7 +1,7 @@
 (* C11 -- property theorems only; each closed by `exact` and followed by Print Assumptions.
    Instantiated at the observed value type `val` for labels and cells, with util.resolve_dtype and
    util.dtype_kind_to_na as REGENERATED from /repo on every run (Gen/Gen_util.v). *)
-Require Import SF.Prelude SF.Dtype SF.Value SF.Blocks SF.PyDyn SF.Concat SF.ConcatVal Gen.Gen_util.
+Require Import SF.Prelude SF.Dtype SF.Value SF.Blocks SF.PyDyn SF.Concat SF.ConcatVal Gen.Gen_util Gen.Gen_c11.
 Require Import Proofs.ConcatVstack Proofs.ConcatKernel Proofs.ConcatAlign Proofs.ConcatReindex
   Proofs.ConcatFrame Proofs.ConcatCells Proofs.ConcatSegments Proofs.ConcatOverlay Proofs.ConcatExamples.
 
@@ -142,3 +142,20 @@ Theorem C11_overlay_first_nonmissing : forall (vs : list val) (x : val),
   end.
 Proof. exact (overlay_first_nonmissing isna). Qed.
 Print Assumptions C11_overlay_first_nonmissing.
+
+(* 13. Identical operands keep their order: when every input carries the same labels in the same order, the
+   aligned axis is exactly that list (no sorting) -- what assume_unique=True in index_many_set is for. *)
+Theorem C11_identical_labels_keep_order : forall (union : bool) (l : list val) (n : nat),
+  M_index_many_set val_eqb lleb_val union (l :: repeat l n) = l.
+Proof. exact (identical_labels_keep_order val_eqb lleb_val c11_val_eqb_spec). Qed.
+Print Assumptions C11_identical_labels_keep_order.
+
+(* 14. The decision constants the model builds in, as REGENERATED from the source on this run: index_many_set
+   passes assume_unique=True (the shortcuts of M_set_1d apply) and `union` through; the keyword defaults the
+   harness relies on when it omits an argument (union=True, axis=0, fill_value=np.nan). *)
+Theorem C11_source_constants :
+  index_many_set_assume_unique = true /\ from_concat_union_default = true /\ from_concat_items_union_default = true /\
+  from_concat_axis_default = 0 /\ from_concat_fill_default_is_nan = true /\
+  frame_overlay_union_default = true /\ series_overlay_union_default = true.
+Proof. exact (conj eq_refl (conj eq_refl (conj eq_refl (conj eq_refl (conj eq_refl (conj eq_refl eq_refl)))))). Qed.
+Print Assumptions C11_source_constants.
